@@ -363,4 +363,114 @@ theorem parse_render (secs : List Sec) (hok : secs.all secOk = true) :
   simp only
   exact run_trailer _ rfl
 
+
+/-! ### pen movement -/
+
+/-- Sum of the advances `w(c)/1000 · fs` of a cid list. -/
+def advSum (fs : Rat) (w : Nat → Rat) : List Nat → Rat
+  | [] => 0
+  | c :: cs => w c * (1 / 1000) * fs + advSum fs w cs
+
+theorem showCids_snd (v : Bool) (fs : Rat) (w : Nat → Rat) : ∀ (cs : List Nat) (x y : Rat),
+    (showCids v fs w cs (x, y)).2 = if v then (x, y + advSum fs w cs) else (x + advSum fs w cs, y)
+  | [], x, y => by cases v <;> simp [showCids, advSum] <;> grind
+  | c :: cs, x, y => by
+    cases v
+    · simp only [showCids, Bool.false_eq_true, if_false, advSum]
+      rw [showCids_snd false fs w cs]
+      simp only [Bool.false_eq_true, if_false, Prod.mk.injEq, and_true]
+      grind
+    · simp only [showCids, if_true, advSum]
+      rw [showCids_snd true fs w cs]
+      simp only [if_true, Prod.mk.injEq, true_and]
+      grind
+
+theorem showCids_append (v : Bool) (fs : Rat) (w : Nat → Rat) : ∀ (a b : List Nat) (p : Rat × Rat),
+    showCids v fs w (a ++ b) p =
+      ((showCids v fs w a p).1 ++ (showCids v fs w b (showCids v fs w a p).2).1,
+       (showCids v fs w b (showCids v fs w a p).2).2)
+  | [], b, p => by simp [showCids]
+  | c :: a, b, (x, y) => by
+    simp only [List.cons_append, showCids]
+    rw [showCids_append v fs w a b]
+
+theorem showCids_head (v : Bool) (fs : Rat) (w : Nat → Rat) (c : Nat) (cs : List Nat) (x y : Rat) :
+    (showCids v fs w (c :: cs) (x, y)).1.head? = some ⟨c, x, y, w c * (1 / 1000) * fs⟩ := by
+  simp [showCids]
+
+
+/-! ### width arrays -/
+
+/-- The specified (cid, width) pairs as a width dictionary of the model. -/
+def toWMap (ps : List (Int × Rat)) : WMap := ps.map (fun e => ((e.1 : Rat), WVal.num e.2))
+
+theorem toWMap_append (a b : List (Int × Rat)) : toWMap (a ++ b) = toWMap a ++ toWMap b := by
+  simp [toWMap]
+
+theorem putList_eq (c : Nat) : ∀ (ws : List (Rat × Bool)) (i : Nat) (m : WMap),
+    putList (c : Rat) i (ws.map (fun w => WVal.num w.1)) m = toWMap (listPairs c i ws).reverse ++ m
+  | [], i, m => by simp [putList, listPairs, toWMap]
+  | w :: ws, i, m => by
+    simp only [List.map_cons, putList, listPairs, List.reverse_cons, toWMap_append]
+    rw [putList_eq c ws (i + 1)]
+    simp only [toWMap, List.map_cons, List.map_nil, List.append_assoc, List.cons_append, List.nil_append,
+      Rat.intCast_natCast, Rat.natCast_add]
+
+theorem putRange_eq (c1 : Int) (w : Rat) : ∀ (n i : Nat) (m : WMap),
+    putRange c1 (WVal.num w) n i m =
+      toWMap ((List.range n).map (fun (j : Nat) => (c1 + ((i + j : Nat) : Int), w))).reverse ++ m
+  | 0, i, m => by simp [putRange, toWMap]
+  | n + 1, i, m => by
+    rw [putRange, putRange_eq c1 w n (i + 1), range_succ_map]
+    simp only [List.reverse_cons, toWMap_append, List.append_assoc, Nat.add_zero]
+    congr 1
+    · congr 2
+      apply List.map_congr_left
+      intro j _
+      have : i + 1 + j = i + (j + 1) := by omega
+      rw [this]
+
+theorem widths_entry (e : WEntry) (m : WMap) :
+    (renderWEntry e).foldl widthsStep (m, []) = (toWMap (wentryPairs e).reverse ++ m, []) := by
+  cases e with
+  | list c ws =>
+    simp only [renderWEntry, List.foldl_cons, List.foldl_nil, widthsStep, List.nil_append, List.getLast?_singleton,
+      wentryPairs]
+    rw [putList_eq]
+  | range c1 c2 w =>
+    simp only [renderWEntry, List.foldl_cons, List.foldl_nil, widthsStep, List.nil_append, List.cons_append,
+      and_self, if_true, Rat.floor_intCast, wentryPairs]
+    rw [putRange_eq]
+    simp only [Nat.zero_add]
+
+theorem widths_fold : ∀ (es : List WEntry) (m : WMap),
+    (renderW es).foldl widthsStep (m, []) = (toWMap (specWidthPairs es).reverse ++ m, [])
+  | [], m => by simp [renderW, specWidthPairs, toWMap]
+  | e :: rest, m => by
+    simp only [renderW, List.flatMap_cons, List.foldl_append, specWidthPairs] at *
+    rw [widths_entry e m]
+    have := widths_fold rest (toWMap (wentryPairs e).reverse ++ m)
+    simp only [renderW, specWidthPairs] at this
+    rw [this]
+    simp [toWMap_append]
+
+theorem lookup_toWMap (cid : Nat) : ∀ (ps : List (Int × Rat)),
+    (toWMap ps).lookup (cid : Rat) = (ps.lookup (cid : Int)).map WVal.num
+  | [] => by simp [toWMap]
+  | (k, w) :: rest => by
+    have ih := lookup_toWMap cid rest
+    simp only [toWMap, List.map_cons, List.lookup_cons] at ih ⊢
+    by_cases hk : (cid : Int) = k
+    · subst hk
+      simp [Rat.intCast_natCast]
+    · have hne : ¬ ((cid : Rat) = (k : Rat)) := by
+        intro h
+        apply hk
+        rw [← Rat.intCast_natCast] at h
+        exact Rat.intCast_inj.mp h
+      have b1 : ((cid : Rat) == (k : Rat)) = false := by simpa using hne
+      have b2 : ((cid : Int) == k) = false := by simpa using hk
+      rw [b1, b2]
+      exact ih
+
 end PdfVerif.CIDFontLemmas
